@@ -327,6 +327,9 @@ func (c *Ctx) seqPop() {
 			if !c.isElemAt(fa, s, r0, h0, k, sv) {
 				problems = append(problems, fmt.Sprintf("the value returned (%s) is not the element removed (slot %s of the header found)", r0.key, k.key))
 			}
+			if v, known := c.knownBool(fa, s, ret.Results[1]); !known || !v {
+				problems = append(problems, "failure is reported although an element (possibly nil) was removed")
+			}
 		}
 	}
 	if nRemoved < 2 {
@@ -1254,6 +1257,14 @@ func (c *Ctx) seqRemove() {
 				if v, known := c.knownBool(fa, s, ret.Results[1]); !known || v {
 					problems = append(problems, "success is reported although nothing was removed")
 				}
+				// nothing is removed only when the index addresses no position at all
+				// (not merely because the element found there is nil)
+				if _, did := s.cep[idxCalls[0]]; did {
+					pos := fa.callResultTerm(s, idxCalls[0], 1)
+					if !c.provesFact(fa, s, Fact{aTR, c.eng.tt.mk(Term{K: "B", S: "<=", A: pos, B: c.intConst(0)}), true}, sv) {
+						problems = append(problems, "nothing is removed on a path where the index may address an existing position (e.g. one holding a nil element)")
+					}
+				}
 				continue
 			}
 			r0 := fa.term(s, ret.Results[0])
@@ -1654,6 +1665,14 @@ func (c *Ctx) seqRemoveAlgebraic(fa *FnAnalysis, fn *ssa.Function, sv []ssa.Valu
 			if !stored {
 				if v, known := c.knownBool(fa, s, ret.Results[1]); !known || v {
 					problems = append(problems, "success is reported although nothing was removed")
+				}
+				// nothing is removed only when the index addresses no position at all
+				// (not merely because the element found there is nil)
+				if _, did := s.cep[idxCalls[0]]; did {
+					pos := fa.callResultTerm(s, idxCalls[0], 1)
+					if !c.provesFact(fa, s, Fact{aTR, c.eng.tt.mk(Term{K: "B", S: "<=", A: pos, B: c.intConst(0)}), true}, sv) {
+						problems = append(problems, "nothing is removed on a path where the index may address an existing position (e.g. one holding a nil element)")
+					}
 				}
 				continue
 			}
